@@ -423,7 +423,11 @@ pub mod read {
         let host = parsed
             .headers_ref()
             .and_then(|headers| headers.get(header::HOST).map(HeaderValue::as_bytes))
-            .or(default_host);
+            .or(default_host)
+            // Only an authority becomes part of the URI: any other value of the `host` header
+            // would make the URI invalid, or (`a.org/dir`, `a.org?q`) change the path and query
+            // of the request. The header is still there for choosing the host.
+            .filter(|host| uri::Authority::try_from(*host).is_ok());
 
         let uri = if let Some(host) = host {
             let mut uri =
@@ -435,8 +439,8 @@ pub mod read {
             uri.extend(&buffer[path_start..path_end]);
             uri.freeze()
         } else if buffer[path_start] == b'/' {
-            // A request without a `host` header (the usual HTTP/1.0 request) is still a request:
-            // an origin-form target is a URI by itself. The host is then chosen by the SNI
+            // A request without a usable `host` header (the usual HTTP/1.0 request) is still a
+            // request: an origin-form target is a URI by itself. The host is then chosen by the SNI
             // hostname, or the request is refused with 409 Conflict.
             buffer.slice(path_start..path_end)
         } else {
